@@ -2045,6 +2045,10 @@ static int dfs_copy(vnaproperty_t **destination, const vnaproperty_t *source)
 	break;
 
     case VNAPROPERTY_MAP:
+	/* create the map itself so that an empty map is copied as one */
+	if (vnaproperty_set_subtree(destination, "{}") == NULL) {
+	    return -1;
+	}
 	if ((keys = vnaproperty_keys(source, ".")) == NULL) {
 	    return -1;
 	}
@@ -2074,6 +2078,10 @@ static int dfs_copy(vnaproperty_t **destination, const vnaproperty_t *source)
 	break;
 
     case VNAPROPERTY_LIST:
+	/* create the list itself so that an empty list is copied as one */
+	if (vnaproperty_set_subtree(destination, "[]") == NULL) {
+	    return -1;
+	}
 	count = vnaproperty_count(source, ".");
 	for (int i = 0; i < count; ++i) {
 	    vnaproperty_t **new_destination, *new_source;
